@@ -96,6 +96,8 @@ type Ctx struct {
 	gcOrder     int
 	curBlk      *ssa.BasicBlock
 	pathFact    map[int]bool
+	priorRefs   []string
+	allocClock  int
 	stableFV  map[string]bool
 	provIDs   map[string]int
 	chanLinksUsed map[string]bool
@@ -803,7 +805,9 @@ func (c *Ctx) backEdge(from *ssa.BasicBlock, h *ssa.BasicBlock, st *State, li *l
 	// "loop N iteration e": e must hold at the end of every iteration (names are those of
 	// the iteration just finished)
 	for i, cl := range c.con.LoopIter[li.ord] {
-		env := c.baseEnv(st, c.entry)
+		// in an iteration clause old(e) is e at the beginning of the iteration just finished
+		// (the loop-head state), for variables that live in a local cell
+		env := c.baseEnv(st, li.st)
 		label := cl.Label
 		if label == "" {
 			label = fmt.Sprint(i + 1)
